@@ -6,7 +6,7 @@ from props.c20 import seg_table, _same_arrays
 ID = "C19"
 HEAP_SUMMARY = True      # end every program with the reference-level observation (BB.Model.Heap vs id() walk)
 LEAN_MODULE = "BB.Properties.C19"
-QUICK_N = 200
+QUICK_N = 400
 THOROUGH_N = 4000
 RULE = ("blueprints (1-6 segments over ramp, sine, gaussian, gaussian_smooth_cutoff, waituntil; names from a pool with digits "
         "inside and repeats; int and float arguments incl. negative, 1e-9 and 1e9; absolute and segment-bound markers on both "
